@@ -78,6 +78,10 @@ def gen_comp(rng, name="comp", step=60):
     if master_mode:
         major, minor = 10, 20
     rel = "%d_%d" % (major, minor)
+    # the component's own tag format, read by an overridden parse_buildtag hook: "lib-10.20-b3"
+    hook_tags = not master_mode and not saved_mode and rng.random() < 0.25
+    # the first build of a component may carry the number 0
+    bn = -1 if rng.random() < 0.2 else 0
     # an older location of the version is still configured first; the file left there is a note, not a number
     old_note = rng.choice(["see VERSION", "moved", "1.x"]) if (master_mode or saved_mode) and rng.random() < 0.3 else None
     for cid in range(1, m + 1):
@@ -103,7 +107,8 @@ def gen_comp(rng, name="comp", step=60):
             for _ in range(2 if rng.random() < 0.15 else 1):
                 # (sometimes the same commit was built once more: second build tag, another number)
                 bn += 1
-                tags[f"build_{bn}_master_success" if master_mode else f"build_{bn}_release_{rel}_success"] = cid
+                tags[f"build_{bn}_master_success" if master_mode else
+                     f"lib-{major}.{minor}-b{bn}" if hook_tags else f"build_{bn}_release_{rel}_success"] = cid
                 versions.append((cid, (major, minor, bn)))
     heads = {"origin/master" if master_mode else "origin/release/%d.%d" % (major, minor if not master_mode else 20): m}
     if rng.random() < 0.5 and not saved_mode:
@@ -120,7 +125,7 @@ def gen_comp(rng, name="comp", step=60):
             prev = commits[cid]
             if rng.random() < 0.6:
                 bn += 1
-                tags[f"build_{bn}_release_10_30_success"] = cid
+                tags[f"lib-10.30-b{bn}" if hook_tags else f"build_{bn}_release_10_30_success"] = cid
         heads["origin/release/10.30"] = m + k
     return mg.Repo(name, commits, heads, tags), versions
 
@@ -185,12 +190,15 @@ def grow(comp, par, versions, pins, how, second=None):
     commit that pins this build becomes the head of a parent branch and is built"""
     main_branch = next(b for b in comp.branches if b != "origin/release/10.30")
     h = comp.branches[main_branch]
-    bn = 1 + max(int(re.match(r"build_(\d+)_", t).group(1)) for t in comp.tags)
+    bn = 1 + max(int(re.match(r"build_(\d+)_|lib-[0-9.]+-b(\d+)", t).group(1) or
+                     re.match(r"build_(\d+)_|lib-[0-9.]+-b(\d+)", t).group(2)) for t in comp.tags)
     major, minor = versions[-1][1][0], versions[-1][1][1]
     vfile = comp.commits[h].tree.files.get("VERSION")
     if main_branch == "origin/master":
         major, minor = [int(x) for x in vfile.data.decode().split(".")]
         comp.add_tag("build_%d_master_success" % bn, h)
+    elif any(t.startswith("lib-") for t in comp.tags):
+        comp.add_tag("lib-%d.%d-b%d" % (major, minor, bn), h)
     else:
         comp.add_tag("build_%d_release_%d_%d_success" % (bn, major, minor), h)
     versions.append((h, (major, minor, bn)))
